@@ -4,7 +4,7 @@ from spec.floats import *
 from spec.c16 import *
 
 
-class MPSFloatFormat_representable_in(Contract):
+class MPSFloatFormat_representable_in_B4(Contract):
     target = 'fpy2.number.context.mps_float:MPSFloatFormat.representable_in'
     params = {'self': 'MPSFloatFormat', 'x': 'RealFloat | Float'}
     returns = 'bool'
